@@ -13,6 +13,7 @@ def main():
     t0 = time.time()
     ensure_tool("t1")
     translate_t1()
+    run_translator("t4", [os.path.join(REPO, "main", "bebopc-go", "main.go"), os.path.join(REPO, "main", "bebopfmt", "main.go")], "gen/CliSteps.v", "T4(main/*/main.go)")
     coq_makefile()
     rc, so, se = sh(["make", "-j16"], cwd=COQ, timeout=3000)
     open(os.path.join(LOGS, "setup-coq.log"), "w").write(so + se)
@@ -43,4 +44,11 @@ def main():
         frontrun.fexec_bin()
     except Exception as e:
         print("setup: fexec does not build: %s" % e)
+    import c12, c18, c19
+    for f in (lambda: c18.sys_model(), lambda: c18.gexec_bin(), lambda: c18.gexec_bin(race=True), lambda: c12.tcheck_bin(),
+              lambda: c19.build_cli("bebopc-go"), lambda: c19.build_cli("bebopfmt"), lambda: ensure_tool("t4")):
+        try:
+            f()
+        except Exception as e:
+            print("setup: %s" % e)
     print("setup done in %.0fs" % (time.time() - t0))
